@@ -145,26 +145,16 @@ package msg
 //@   modifies nothing
 //@   ensures  [started] result == (string(topic) in b.startedSending)
 //@
-//@ func@seq (*Box).markTopicForSender
+//@ func@seq (*Box).store
 //@   props C14 C15
-//@   requires msg != nil && initialised(b) && wellFormed(b)
-//@   modifies b.totalInFlightTopicsBySender[*], heap:MD!string!empty, heap:MV!string!empty
-//@   ensures [marked] msg.Source in b.totalInFlightTopicsBySender && b.totalInFlightTopicsBySender[msg.Source] != nil && string(msg.Topic) in b.totalInFlightTopicsBySender[msg.Source]
-//@   ensures [others] forall s uint16, t string :: { dom(b.totalInFlightTopicsBySender[s], t) } (s != msg.Source || t != string(msg.Topic)) ==>
-//@                      ((s in b.totalInFlightTopicsBySender && t in b.totalInFlightTopicsBySender[s]) == old(s in b.totalInFlightTopicsBySender && t in b.totalInFlightTopicsBySender[s]))
-//@   ensures [well-formed] wellFormed(b)
-//@
-//@ func@seq (*Box).getOrCreateMessagesByTopic
-//@   props C14 C15
-//@   requires initialised(b) && wellFormed(b)
-//@   modifies b.pendingMessages[*]
-//@   ensures  [result]  result != nil && result.messageCountPerSender != nil && result.logger != nil &&
-//@                      string(topic) in b.pendingMessages && b.pendingMessages[string(topic)] == result
-//@   ensures  [same]    old(string(topic) in b.pendingMessages) ==> result == old(b.pendingMessages[string(topic)])
-//@   ensures  [created] !old(string(topic) in b.pendingMessages) ==> fresh(result) && forall s uint16 :: !(s in result.messageCountPerSender)
-//@   ensures  [others]  forall t string :: { dom(b.pendingMessages, t) } t != string(topic) ==>
-//@                        (t in b.pendingMessages) == old(t in b.pendingMessages) && b.pendingMessages[t] == old(b.pendingMessages[t])
-//@   ensures  [well-formed] wellFormed(b)
+//@   requires msg != nil && boxInv(b)
+//@   modifies b.pendingMessages[*], b.totalInFlightTopicsBySender[*], heap:MD!string!empty, heap:MV!string!empty,
+//@            heap:MV!string!p_msg_storedMessages, heap:F!storedMessages!messages, heap:F!storedMessages!lastUsed, heap:MD!uint16!int, heap:MV!uint16!int, heap:E!p_tss_IncMessage, heap:MV!uint16!m_string_empty, heap:MD!uint16!m_string_empty, heap:MD!string!p_msg_storedMessages
+//@   ensures  [refused]   old(string(msg.Topic) in b.startedSending) == !result
+//@   ensures  [inv-wf]    wellFormed(b)
+//@   ensures  [inv-sound] inflightSound(b)
+//@   ensures  [inv-excl]  exclusive(b)
+//@   ensures  [started-stay-released] forall t string :: { dom(b.startedSending, t) } old(t in b.startedSending) ==> (t in b.startedSending) && !(t in b.pendingMessages)
 //@
 //@ func@seq (*storedMessages).add
 //@   props C14 C15
